@@ -201,11 +201,17 @@ func NewPropFindResponse(path string, propfind *PropFind, props map[xml.Name]Pro
 			}
 		}
 	} else if prop := propfind.Prop; prop != nil {
+		seen := make(map[xml.Name]bool)
 		for _, raw := range prop.Raw {
 			xmlName, ok := raw.XMLName()
 			if !ok {
 				continue
 			}
+			if seen[xmlName] {
+				// a property named twice is still reported once
+				continue
+			}
+			seen[xmlName] = true
 
 			emptyVal := NewRawXMLElement(xmlName, nil, nil)
 
